@@ -47,6 +47,8 @@ pub fn parse_opt(s: &str) -> Option<u64> {
 
 thread_local! {
     static CMPS: std::cell::Cell<u64> = std::cell::Cell::new(0);
+    // comparisons made after the virtual clock first answered "exceeded"
+    static POST: std::cell::Cell<u64> = std::cell::Cell::new(0);
 }
 
 #[derive(Debug, Clone, Copy, Hash, PartialEq, Eq, PartialOrd, Ord)]
@@ -57,6 +59,9 @@ pub struct NewItem(pub u64);
 impl PartialEq<OldItem> for NewItem {
     fn eq(&self, other: &OldItem) -> bool {
         CMPS.with(|c| c.set(c.get() + 1));
+        if similar::verif::clock_expired() {
+            POST.with(|c| c.set(c.get() + 1));
+        }
         self.0 == other.0
     }
 }
@@ -243,6 +248,15 @@ pub fn parse_alg(s: &str) -> similar::Algorithm {
     }
 }
 
+// 0 = Ok, 1 = exactly the injected error, 2 = some other error
+fn err_code(r: &Result<(), u32>) -> u32 {
+    match r {
+        Ok(()) => 0,
+        Err(4242) => 1,
+        Err(_) => 2,
+    }
+}
+
 pub fn far_deadline() -> Option<Instant> {
     Some(Instant::now() + Duration::from_secs(3600))
 }
@@ -367,6 +381,7 @@ fn case_raw(kv: &Kv) -> String {
     let fail = parse_opt(kv["fail"]).map(|x| x as usize);
     let stack = kv["stack"];
     CMPS.with(|c| c.set(0));
+    POST.with(|c| c.set(0));
     let deadline = install_clock(dl);
     let (log, r) = match s.off {
         None => {
@@ -408,8 +423,9 @@ fn case_raw(kv: &Kv) -> String {
         0
     };
     let cmps = CMPS.with(|c| c.get());
+    let post = POST.with(|c| c.get());
     let counters = if fail.is_none() && stack == "none" {
-        format!("probes={} cmps={}", probes, cmps)
+        format!("probes={} cmps={} post={}", probes, cmps, post)
     } else if fail.is_none() {
         format!("probes={} cmps=-", probes)
     } else {
@@ -418,7 +434,7 @@ fn case_raw(kv: &Kv) -> String {
     format!(
         "calls={} err={} {}",
         fmt_calls(&log),
-        if r.is_err() { 1 } else { 0 },
+        err_code(&r),
         counters
     )
 }
@@ -477,7 +493,7 @@ fn case_adapter(kv: &Kv) -> String {
     format!(
         "calls={} err={}",
         fmt_calls(&log),
-        if r.is_err() { 1 } else { 0 }
+        err_code(&r)
     )
 }
 
